@@ -59,3 +59,4 @@ require (
 )
 
 replace go.miragespace.co/specter => /repo
+replace github.com/tidwall/wal => /verif/third_party/wal
